@@ -117,6 +117,57 @@ class SymStr(str):
             return bool(SymBool(z3.Or([c == oc for c in self.chars]))) if self.chars else False
         raise Unsupported("substring test on a symbolic string")
 
+    # -- whitespace stripping, modelled on Python's str.isspace for every code point -----------------------------
+    @staticmethod
+    def is_space(c: Any) -> Any:
+        singles = [32, 133, 160, 5760, 8232, 8233, 8239, 8287, 12288]
+        return z3.Or([z3.And(c >= 9, c <= 13), z3.And(c >= 28, c <= 31), z3.And(c >= 8192, c <= 8202)] + [c == v for v in singles])
+
+    def _strip(self, chars: Any, left: bool, right: bool) -> "SymStr":
+        if chars is not None:
+            raise Unsupported("strip with an explicit character set on a symbolic string")
+        cs = list(self.chars)
+        if left:
+            while cs and cur().branch(SymStr.is_space(cs[0])):
+                cs.pop(0)
+        if right:
+            while cs and cur().branch(SymStr.is_space(cs[-1])):
+                cs.pop()
+        return SymStr(cs)
+
+    def strip(self, chars: Any = None) -> "SymStr":  # type: ignore[override]
+        return self._strip(chars, True, True)
+
+    def lstrip(self, chars: Any = None) -> "SymStr":  # type: ignore[override]
+        return self._strip(chars, True, False)
+
+    def rstrip(self, chars: Any = None) -> "SymStr":  # type: ignore[override]
+        return self._strip(chars, False, True)
+
+    def isspace(self) -> bool:  # type: ignore[override]
+        return bool(self.chars) and all(cur().branch(SymStr.is_space(c)) for c in self.chars)
+
+    def isdigit(self) -> bool:  # type: ignore[override]
+        return bool(self.chars) and all(cur().branch(z3.And(c >= 48, c <= 57)) for c in self.chars)
+
+    def startswith(self, prefix: Any, *a: Any) -> bool:  # type: ignore[override]
+        if a or not isinstance(prefix, str):
+            raise Unsupported("startswith with offsets / tuples on a symbolic string")
+        n = len(prefix)
+        return len(self.chars) >= n and bool(SymStr(self.chars[:n]) == prefix)
+
+    def endswith(self, suffix: Any, *a: Any) -> bool:  # type: ignore[override]
+        if a or not isinstance(suffix, str):
+            raise Unsupported("endswith with offsets / tuples on a symbolic string")
+        n = len(suffix)
+        return len(self.chars) >= n and bool(SymStr(self.chars[len(self.chars) - n:]) == suffix)
+
+    def _unmodelled(self, *a: Any, **k: Any) -> Any:
+        raise Unsupported("string method not modelled on a symbolic string")
+
+    lower = upper = split = rsplit = replace = find = index = count = isalpha = isalnum = join = partition = _unmodelled  # type: ignore[assignment]
+    translate = casefold = title = swapcase = zfill = center = ljust = rjust = encode = format = splitlines = _unmodelled  # type: ignore[assignment]
+
     def concrete(self, m: Any) -> str:
         out = []
         for c in self.chars:
